@@ -148,6 +148,14 @@ impl Callbacks for Cb {
                     }
                 }
             }
+            // module tree (the consumer canonicalises nested private modules away: moving an item into an inline module and
+            // re-exporting it does not change what it is)
+            let mut mods: Vec<J> = Vec::new();
+            for ldid in tcx.hir_crate_items(()).definitions() {
+                if matches!(tcx.def_kind(ldid), DefKind::Mod) {
+                    mods.push(J::s(common::def_path(tcx, ldid.to_def_id())));
+                }
+            }
             let cwd = std::env::current_dir().map(|p| p.to_string_lossy().to_string()).unwrap_or_default();
             let doc = obj! {
                 "crate": J::s(&krate),
@@ -156,6 +164,7 @@ impl Callbacks for Cb {
                 "cfg": J::s(std::env::var("SCALEFACTS_CFG").unwrap_or_default()),
                 "impls": J::Arr(impls),
                 "adts": J::Arr(adts),
+                "mods": J::Arr(mods),
                 "consts": J::Arr(consts),
                 "traits": J::Arr(traits),
                 "fns": J::Arr(fns)
